@@ -58,6 +58,25 @@ def run(pid, case, ops, tmpdir):
         return None, None
     d = subprocess.run(f"ulimit -s unlimited 2>/dev/null; exec '{DRIVER}' '{out}' {pid}", shell=True,
                        capture_output=True, text=True, timeout=600)
+    # histories of the suites whose nodes only ever receive messages other nodes produced (proc, conv,
+    # kf1): a candidate in which a node receives a message nobody has sent is a different scenario
+    # (a forged message), not a smaller version of this one
+    if re.match(r"CASE (proc|conv|kf1)-", case):
+        produced = set()
+        pending = None
+        for line in open(out, errors="replace"):
+            line = line.rstrip("\n")
+            if line.startswith("= "):
+                m = re.match(r"= reply (.*?) bytes \d+", line)
+                if m and m.group(1) != "none":
+                    produced.add(m.group(1))
+                m = re.match(r"= (SYN .*?) \| ", line)
+                if m:
+                    produced.add(m.group(1))
+                continue
+            m = re.match(r"PROC \d+ (.*?) \| ORD", line)
+            if m and m.group(1) not in produced:
+                return set(), out
     kinds = set()
     for line in d.stdout.split("\n"):
         m = re.match(r"MONITOR-FAIL property=(\S+) (?:class=(\S+) )?what=(.*?) case=", line)
